@@ -258,6 +258,22 @@ def adds_once(ctx: Ctx):
     ctx.check(ok, "D3", "DU.adds-once", "update_requests_from_iterator folds over the given iterator starting from the given state", outer, why_bad="fold shape changed", construct="update_requests_from_iterator:fold")
 
 
+def _row_stream(e: ast.AST) -> bool:
+    """Is `e` the stream of rows the reader hands out for this step, possibly regrouped / wrapped (tuple, list, groupby, a
+    comprehension over it)? Values merely computed FROM the folded rows (the station ids of the finished update) are not."""
+    e = flow.core(e)
+    if isinstance(e, ast.Call):
+        d = flow.dump(e.func)
+        if d.endswith("read_until_stop_condition"):
+            return True
+        if d.split(".")[-1] in ("tuple", "list", "iter", "groupby", "filter", "map", "sorted", "reversed", "enumerate", "chain", "islice"):
+            return any(_row_stream(a) for a in e.args)
+        return False
+    if isinstance(e, (ast.GeneratorExp, ast.ListComp)):
+        return any(_row_stream(g.iter) for g in e.generators)
+    return False
+
+
 def prices(ctx: Ctx):
     repo = ctx.repo
     # later rows override earlier ones
@@ -281,6 +297,31 @@ def prices(ctx: Ctx):
         ctx.check(want is not None and flow.dump(p.value) == want, "D4", "DU.latest-wins", "a price row overrides the earlier entry of its (station|region, plug) and keeps the others", fn, p.end,
                   why_bad=f"returns {flow.dump(p.value)[:220]}", construct="_add_row_to_this_update:shape")
     ctx.require(n >= 2, "_add_row_to_this_update: station/geoid branches not found")
+    # the rows of one step reach that per-row merge one by one, each on top of everything the earlier rows of the step produced:
+    # any other way of combining them (per-timestamp blocks laid over each other with a key-level merge, a dict update) replaces
+    # a station's whole entry and loses the plug types only an earlier row named
+    upd = repo.func(CPU, "ChargingPriceUpdate.update")
+    n_row_folds = 0
+    for F, XS, INIT in rules.recognise_folds(upd):
+        if not _row_stream(XS):
+            continue
+        n_row_folds += 1
+        step = rules.reducer_expr(repo, upd, F)
+        d = flow.dump(step)
+        direct = d == "_add_row_to_this_update(ACC, X)"
+        nested = False
+        if not direct:
+            for c in flow.calls_in(step, "reduce"):
+                if len(c.args) >= 3 and flow.dump(rules.reducer_expr(repo, upd, c.args[0])) == "_add_row_to_this_update(ACC, X)" and flow.dump(c.args[2]) == "ACC":
+                    nested = True
+        ctx.check(direct or nested, "D4", "DU.latest-wins", "the price rows read in a step are merged row by row into one accumulator by _add_row_to_this_update", upd, F,
+                  why_bad=f"the rows are combined by `{d[:120]}`: a later entry for a station / region replaces the whole earlier entry of that key, so plug types named only by an earlier "
+                          f"row of the same step are never applied",
+                  construct="ChargingPriceUpdate.update:row-fold")
+        init = flow.dump(flow.core(INIT))
+        ctx.check(init in ("immutables.Map()", "Map()") or init.startswith("immutables.Map["), "D4", "DU.latest-wins", "the step's price accumulator starts empty", upd, INIT,
+                  why_bad=f"starts from {init[:80]}", construct="ChargingPriceUpdate.update:row-fold-init")
+    ctx.require(n_row_folds >= 1, "ChargingPriceUpdate.update: the fold over the rows read in this step was not found")
     # price writers
     def ok_w(s):
         f = s.func
